@@ -191,6 +191,21 @@ class Gen:
             self.emit('get L%d %s' % (lex, hx(first)))
             self.emit('get L%d %s' % (1 - lex, hx(second)))
             self.emit('get L%d %s' % (lex, hx(second)))
+        # three to six words of ONE hash code: each interned, all asked again in another order (every one its own node, however many
+        # share the code), then once more after a word of another code
+        for k in range(max(4, n // 6)):
+            grp = C.equal_hash_group(rng, rng.randint(3, 6))
+            lex = rng.randrange(2)
+            for w in grp:
+                self.emit('get L%d %s' % (lex, hx(w)))
+            order = list(grp)
+            rng.shuffle(order)
+            for w in order:
+                self.emit('get L%d %s' % (lex, hx(w)))
+            self.emit('get L%d %s' % (lex, hx(rand_bytes(rng, 16))))
+            for w in reversed(grp):
+                self.emit('get L%d %s' % (lex, hx(w)))
+            self.reread_some(3)
         self.done()
 
     # -- the families -----------------------------------------------------------------------------------------
